@@ -494,11 +494,19 @@ func multisetEq(a, b []string) bool {
 }
 
 func oracleInbox(c *DriveCtx, res *Result) {
-	if res.Spec.Expect == nil || len(res.Spec.Faults) > 0 {
+	if res.Spec.Expect == nil {
 		return
 	}
 	s := res.Sim
 	t := res.Sim.byID["r0"]
+	if len(res.Spec.Faults) > 0 {
+		// fault class: a request that still answers 200 although a seam call failed must have done everything it owed
+		// (a swallowed error shows up as a missing effect); a request that fails may have done a prefix of its effects
+		if t == nil || !t.done || t.Err != nil || t.Rec == nil || t.Rec.Status != 200 {
+			return
+		}
+		s.probe("inbox-200-despite-fault")
+	}
 	if t == nil || !t.done || t.Panic != nil || t.EntryKind != "postInbox" {
 		return
 	}
@@ -783,8 +791,15 @@ func init() {
 	register(&PropDef{
 		ID: "C04", Level: "exploration", Engine: "fedsim",
 		Rule: "case = one activity of a handled type (Create Update Delete Follow Accept Reject Add Remove Like Announce Undo Block, plus Listen for the default callback) posted by a remote peer to a local inbox, with 1-3 objects/targets/actors as IRIs or embedded values, owned or foreign, ordered or unordered collections, pre-existing or absent likes/shares, OnFollow in {nothing, accept, reject}, per type no callback / wrapped / overriding 'other', fetch faults on objects given by IRI; oracle = executable model of the documented default effects applied to the database snapshot, compared document by document with the real final database, plus the automatic Accept/Reject on the wire and the callback log. distinct = distinct event sequences.",
-		QuickCases: 2500, QuickBudgetS: 60, ThoroughBudgetS: 600,
-		Drive:  func(c *DriveCtx, r *Rng, k int) { c.Exec(genInbox(r, "C04", k)) },
+		QuickCases: 1500, QuickBudgetS: 60, ThoroughBudgetS: 600,
+		Drive: func(c *DriveCtx, r *Rng, k int) {
+			if k%6 == 0 {
+				seed := r.s
+				c.singleFaultSweep(func() *RunSpec { return genInbox(NewRng(seed), "C04", k) }, faultKindFor)
+				return
+			}
+			c.Exec(genInbox(r, "C04", k))
+		},
 		Oracle: oracleInbox,
 		Assumptions: []string{"followers/following are compared as sets, Add/Remove targets as multisets, likes/shares as sequences (front)", "the 'seen' record written by inbox forwarding and the inbox entry are not part of the compared delta"},
 	})
